@@ -17,6 +17,11 @@ CLAIMED = {
             "uninterpreted congruent function)", "4/C07",
             "The clause about the analytic pure-dephasing limit exp(-i w t - g(t)) is not decided (values of "
             "transcendental functions, step error)."),
+    "C08": ("SMT (z3 nonlinear real arithmetic) over symbolic execution of the real EvolutionSuperOperator code: "
+            "elementary-step lemma (no abstraction) + grid bookkeeping with the elementary step havoc'ed to an "
+            "arbitrary array (checkpoint abstraction) + no-abstraction twin against direct propagation", "4/C08",
+            "The clause 'refining the internal step changes U only within the truncation bound' is numerical and "
+            "not decided."),
     "C13": ("SMT (z3 nonlinear real arithmetic with exact algebraic roots of unity) over symbolic execution of the "
             "real axis-conjugation and DFunction Fourier-transform code", "4/C13", ""),
     "C14": ("SMT (z3; IEEE exp under/overflow as axioms on an uninterpreted Exp; division-by-zero side "
@@ -36,5 +41,5 @@ CLAIMED = {
 }
 _NYB = "check not built yet in this round (design in DESIGN.md section 4); not claimed until its harness is sound"
 NOT_APPLICABLE = {p: _NYB for p in
-                  ["C%02d" % i for i in range(2, 20) if i not in (2, 3, 5, 7, 13, 14, 16, 17, 19)]}
+                  ["C%02d" % i for i in range(2, 20) if i not in (2, 3, 5, 7, 8, 13, 14, 16, 17, 19)]}
 SOURCE_COMMITS = []
